@@ -427,6 +427,9 @@ pub fn coins_multi(spec: &str) -> Vec<Coin> {
 }
 
 pub fn coins_of(amount: &str) -> Vec<Coin> {
+    if amount == "z" {
+        return vec![Coin::new(0u128, "utok")];
+    }
     match amount.parse::<u128>() {
         Ok(0) | Err(_) => vec![],
         Ok(n) => vec![Coin::new(n, "utok")],
